@@ -1,7 +1,7 @@
 INIT TraceInit
 NEXT TNext
 CONSTANTS
-  Kinds = {"honest", "alt_leaf", "omit_leaf", "drop_proof", "alt_proof", "wrong_id", "wrong_tree", "stale", "poison_spent"}
+  Kinds = {"honest", "alt_leaf", "omit_leaf", "drop_proof", "alt_proof", "wrong_id", "wrong_tree", "stale", "poison_spent", "split_root"}
   BatchSize = 4
   ValidateFirst = TRUE
   RootCheck = TRUE
